@@ -569,7 +569,7 @@ func recipe(opsList []string, dur time.Duration, seed int64) {
 		has[o] = true
 	}
 	pool := buildPool(3, seed, 16384, 300*time.Microsecond)
-	slots = make([]atomic.Pointer[inflight], len(opsList)+2)
+	slots = make([]atomic.Pointer[inflight], len(opsList)+2+8)
 	go watchdog(t0)
 	deadline = t0.Add(dur)
 	rng := rand.New(rand.NewSource(seed))
@@ -578,12 +578,21 @@ func recipe(opsList []string, dur time.Duration, seed int64) {
 		resume = time.Hour // updateStats is not a party of this cycle
 	}
 	closeRounds := has["Session.Close"]
+	// a cycle THROUGH THE EVENT LOOP of a torrent (the loop is a core party): the parties act on the SAME torrent (pool[0]) that
+	// is transferring, the registry writer removes and re-adds THAT torrent, and the session is renewed every two seconds
+	viaLoop := has["torrent.run"]
+	roundDur := dur
+	if viaLoop {
+		roundDur = 2 * time.Second
+	}
+	deadURL := "http://127.0.0.1:1/announce" // trackers added by the AddTracker party: refused at once, no traffic
 	for round := 0; time.Now().Before(deadline); round++ {
 		resMu.Lock()
 		res.Rounds = round + 1
 		resMu.Unlock()
 		s, _ := newSession(fmt.Sprintf("r%d", round), resume, false, false)
 		main := len(opsList)
+		extraSlot := len(opsList) + 2 // additional pollers of a query party
 		for i := 0; i < 2; i++ {
 			e := pool[i]
 			call(main, "setup.AddTorrent", func() error {
@@ -612,7 +621,32 @@ func recipe(opsList []string, dur time.Duration, seed int64) {
 				loop(i, o, func() error { return s.StartAll() })
 			case "Session.StopAll":
 				loop(i, o, func() error { return s.StopAll() })
-			case "Session.AddTorrent", "Session.RemoveTorrent", "Torrent.Move", "rpcHandler.handleMoveTorrent":
+			case "Session.RemoveTorrent", "Torrent.Move", "rpcHandler.handleMoveTorrent":
+				if viaLoop {
+					// remove (= close: closeC, wait for doneC) and re-add the transferring torrent the other parties talk to;
+					// one goroutine per id (Move takes the second torrent when RemoveTorrent is a party too)
+					e := pool[0]
+					if o != "Session.RemoveTorrent" && has["Session.RemoveTorrent"] {
+						e = pool[1]
+					}
+					add := false
+					rng3 := rand.New(rand.NewSource(seed*7 + int64(round)*13 + int64(i)))
+					loop(i, o, func() error {
+						defer func() { add = !add }()
+						if add {
+							t, err := s.AddTorrent(bytes.NewReader(e.tor.Bytes), &torrent.AddTorrentOptions{ID: e.id})
+							if err == nil {
+								_ = t.AddPeer(e.seedAdr)
+							}
+							return err
+						}
+						time.Sleep(time.Duration(rng3.Intn(30)) * time.Millisecond) // let it transfer / be queried for a while
+						return s.RemoveTorrent(e.id, false)
+					})
+					break
+				}
+				fallthrough
+			case "Session.AddTorrent":
 				// a registry writer: insertTorrent (AddTorrent) and removeTorrentFromClient (RemoveTorrent, Move) alternate
 				add := true
 				wid := fmt.Sprintf("%s-w%d", e2.id, i) // one id per writer party: no two goroutines add/remove the same id
@@ -643,6 +677,81 @@ func recipe(opsList []string, dur time.Duration, seed int64) {
 				loop(i, o, func() error { return s.CleanDatabase() })
 			case "Session.GetTorrent", "Session.ListTorrents":
 				loop(i, o, func() error { _ = s.GetTorrent(pool[0].id); return nil })
+			case "Torrent.Stats", "Torrent.Peers", "Torrent.Trackers", "Torrent.Webseeds":
+				// pollers of the four queries answered by the loop on a Response channel (3 goroutines, both torrents)
+				for k := 0; k < 3; k++ {
+					slot := i
+					if k > 0 {
+						if extraSlot >= len(slots) {
+							break
+						}
+						slot = extraSlot
+						extraSlot++
+					}
+					n := k
+					loop(slot, o, func() error {
+						n++
+						t := s.GetTorrent(pool[n%2].id)
+						if t == nil {
+							return nil
+						}
+						switch (n / 2) % 4 {
+						case 0:
+							_ = t.Trackers()
+						case 1:
+							_ = t.Stats()
+						case 2:
+							_ = t.Peers()
+						default:
+							_ = t.Webseeds()
+						}
+						return nil
+					})
+				}
+			case "Torrent.AddTracker":
+				added := 0
+				loop(i, o, func() error {
+					if added >= 300 { // every added tracker is an announcer goroutine of the torrent
+						time.Sleep(5 * time.Millisecond)
+						return nil
+					}
+					added++
+					t := s.GetTorrent(pool[(added/150)%2].id)
+					if t == nil {
+						return nil
+					}
+					err := t.AddTracker(deadURL)
+					time.Sleep(time.Millisecond)
+					return err
+				})
+			case "Torrent.Verify":
+				loop(i, o, func() error {
+					t := s.GetTorrent(pool[0].id)
+					if t == nil {
+						return nil
+					}
+					err := t.Verify()
+					time.Sleep(3 * time.Millisecond)
+					return err
+				})
+			case "Torrent.Start":
+				loop(i, o, func() error {
+					t := s.GetTorrent(pool[0].id)
+					if t == nil {
+						return nil
+					}
+					err := t.Start()
+					time.Sleep(time.Millisecond)
+					return err
+				})
+			case "Torrent.Announce":
+				loop(i, o, func() error {
+					if t := s.GetTorrent(pool[0].id); t != nil {
+						t.Announce()
+					}
+					time.Sleep(time.Millisecond)
+					return nil
+				})
 			case "Session.updateStats", "Session.Close", "torrent.run":
 				// the stats writer runs every millisecond; Close is called below; the loops are there
 			default:
@@ -657,7 +766,8 @@ func recipe(opsList []string, dur time.Duration, seed int64) {
 			stop.Store(true)
 			wg.Wait()
 		} else {
-			for time.Now().Before(deadline) {
+			roundEnd := time.Now().Add(roundDur)
+			for time.Now().Before(deadline) && time.Now().Before(roundEnd) {
 				time.Sleep(20 * time.Millisecond)
 			}
 			stop.Store(true)
